@@ -31,6 +31,11 @@ def gen_ir(r, fmt):
             p["doc"] = r.choice(TRIGGER_DOCS)
         elif k < 0.3 and p.get("typ") == "str":
             p["default"] = r.choice(["'a'", '"b"', "it's", "x y"])
+        elif k < 0.38:
+            p["doc"] = r.choice(["and so on...", "sizes, strides, etc..", "see above....", "the usual suspects, etc..."])  # several trailing dots
+        elif k < 0.46:
+            p["typ"] = r.choice(["str", "Optional[str]"])
+            p["default"] = ""  # the empty string is a legal default
     if r.random() < 0.3:
         ir["doc"] = r.choice(["Summary line.\n\nLonger description\nover two lines.", "  Indented summary", "Summary"])
     return ir
@@ -97,6 +102,9 @@ def compare(chk, case, views):
                     elif f == "default":
                         sig["from"] = "absent" if pa[f] is None else pa[f][0]
                         sig["to"] = "absent" if pb[f] is None else pb[f][0]
+                        sig["kind_change"] = sig["from"] != sig["to"]
+                        # root cause marker: the type of this parameter is (re-)inferred from trigger words in its description
+                        sig["trigger_doc"] = (ir["params"].get(name, {}).get("doc") in TRIGGER_DOCS) if ent == "param" else None
                         if any(x is not None and x[0] == "str" and x[1] in ("None", "(None)") for x in (pa[f], pb[f])):
                             sig["none_like"] = True
                     else:
